@@ -429,8 +429,8 @@ fn cmd_replay(args: &Args) -> i32 {
 
 
 fn obs_line(o: &Obs) -> String {
-    format!("res={} out={} err={} pulled={} opened={} late={} msg={}", o.res, case::hex(&o.out), case::hex(&o.err),
-            o.pulled.iter().map(|x| x.to_string()).collect::<Vec<_>>().join(","), o.opened_stdin as u8, o.late_reads, case::hex(o.panic_msg.as_bytes()))
+    format!("res={} out={} err={} pulled={} opened={} late={} fread={} msg={}", o.res, case::hex(&o.out), case::hex(&o.err),
+            o.pulled.iter().map(|x| x.to_string()).collect::<Vec<_>>().join(","), o.opened_stdin as u8, o.late_reads, o.file_read, case::hex(o.panic_msg.as_bytes()))
 }
 
 fn parse_obs_line(l: &str) -> Obs {
@@ -444,6 +444,7 @@ fn parse_obs_line(l: &str) -> Obs {
                 "pulled" => o.pulled = v.split(',').filter_map(|x| x.parse().ok()).collect(),
                 "opened" => o.opened_stdin = v == "1",
                 "late" => o.late_reads = v.parse().unwrap_or(0),
+                "fread" => o.file_read = v.parse().unwrap_or(0),
                 "msg" => o.panic_msg = String::from_utf8_lossy(&case::unhex(v)).into_owned(),
                 _ => {}
             }
